@@ -132,6 +132,16 @@ Definition steiner_possible (v : view) (terms nodes : list nat) (es : list (nat 
        | _ => false
        end.
 
+(* fewer than two terminals: no closure edge, nothing to span; the answer is the terminal itself (after the fix: commit that
+   keeps the terminals among the retained nodes) or the empty graph.  The theorems (Props/C20e.v, C20g.v) are about two or
+   more terminals, i.e. about steiner_possible. *)
+Definition steiner_possible_all (v : view) (terms nodes : list nat) (es : list (nat * nat * Z)) : bool :=
+  match terms with
+  | [] => andb (list_eqbn nodes []) (list_eqb3 es [])
+  | [t] => andb (list_eqbn nodes [t]) (list_eqb3 es [])
+  | _ => steiner_possible v terms nodes es
+  end.
+
 (* opcode 65: steiner nt t* nn n* (a b w)*  — the verdict of MiscM.steiner_check on the crate's answer, and 7 when the
    answer passes it but is not a possible result of the mirror *)
 Definition steiner_query (v : view) (o : line) : list line :=
@@ -143,4 +153,4 @@ Definition steiner_query (v : view) (o : line) : list line :=
   let nodes := map nz (firstn nn (tl rest)) in
   let es := triples_z (skipn nn (tl rest)) in
   let c := steiner_check v terminals nodes es in
-  [(TAG_VERDICT, [zn (if Nat.eqb c 0 then (if steiner_possible v terminals nodes es then 0 else 7) else c)])].
+  [(TAG_VERDICT, [zn (if Nat.eqb c 0 then (if steiner_possible_all v terminals nodes es then 0 else 7) else c)])].
